@@ -34,6 +34,11 @@ META = dict(
          "some asking for their Context / message / broker in another way than the cached Context (Context with "
          "use_cache=False, TaskiqMessage / AsyncBroker from the resolver, nested providers of every style taking the "
          "Context cached or un-cached) behind an awaiting dependency; "
+         "some kicked with argument objects the PRODUCER keeps (one dict / list rewritten in place between the kicks of a "
+         "fan-out, one object kicked several times, used again by the producer right after the kick) and sent through the "
+         "real sending side - the task's kicker or TaskiqMessage + the broker's own formatter (InMemoryBroker default / "
+         "await_inplace, Proxy / JSON formatter, JSON / pickle serializer) -, the executions writing into nested "
+         "containers of what they received; "
          "non-trivial iff >= 2 "
          "messages and some resolver sub-context (use_cache=False or nested dependency) of an execution starts its "
          "traversal after another execution wrote its Context into the broker's dict; distinct by case content",
